@@ -95,6 +95,7 @@ def run_update_projects(rep, tier, seed, focus, model_ok=True, effort=1, legacy_
             continue
         if any(f.group for f in spec["files"]):
             rep.count("projects-with-recursive-glob-entry")
+        rep.count("config=%s" % spec.get("fmt", "bumpver.toml"))
         with rwgen.to_temp_project(project, spec) as prj:
             try:
                 rwgen.write_contents(prj, spec)
